@@ -114,6 +114,16 @@ theorem evalR_mcall1 (ρ : Expr → ℝ) (fn : MathFn) (p : Expr) :
     evalR ρ (mcall fn [p]) = evalCall (some fn) [evalR ρ p] := by
   simp only [mcall, evalR, callFn_mathf, evalArgs]
 
+/-- the CSE handler: a tree that `is_zero` accepts denotes 0, so answering the literal `0` for it
+(instead of a wrapper around it) does not change the value -/
+theorem evalR_cseRule (ρ : Expr → ℝ) (d : Expr) (p : Option String) (s : String) :
+    evalR ρ (cseRule d p s) = evalR ρ d := by
+  unfold cseRule
+  split
+  · rename_i hz
+    rw [isZero_eval ρ hz, evalR_zero]
+  · simp only [evalR]
+
 /-! ### the rules evaluate to the textbook formulas -/
 
 theorem quotRule_eval (ρ : Expr → ℝ) {f g df dg d : Expr} (h : quotRule f g df dg = .ok d)
@@ -571,6 +581,7 @@ theorem diff_sound : ∀ (e d : Expr), diff cfg v e = .ok d →
         injection h with h; subst h
         simp only [Dom] at hd
         have := diff_sound c dc h1 (fun hc => by simpa [csOk] using hcs hc) hd
+        rw [evalR_cseRule]
         simpa [evalR] using this
   | .call f [], d, h, _, _ => by
       simp only [diff, pure, Except.pure] at h
